@@ -36,6 +36,12 @@ def fail_build(exc, what):
     if m:  # a compile-time expectation of the driver about the generated shell does not hold
         raise Fail(f'{what}: static_assert failed: {m.group(1)}\n{exc.output[:1500]}',
                    'static-assert:' + re.sub(r'\s+', '_', re.sub(r' of (multi-client )?port .*', '', m.group(1))))
+    m = re.search(r'struct [\w:]+. has no member named .((?:ProvidesMultiClient|Provides|Requires)\w+)',
+                  exc.output)
+    if m and exc.owner == 'harness:main.cc':
+        # the driver addresses every exposed port through its accessor: the shell lacks one
+        raise Fail(f'{what}: the generated shell has no accessor {m.group(1)}() although the port is '
+                   f'exposed\n{exc.output[:1200]}', 'missing-accessor')
     if exc.owner.startswith('harness'):
         raise HarnessError(f'{what}: error in harness-owned file ({exc.owner}): {exc}\n'
                            f'{exc.output[:3000]}')
